@@ -28,7 +28,10 @@ META = {
             "again; check_expr does not know implicit calls). Every run: the verdict and the multiset of error kinds (left-recursion chains included) "
             "of the real parse_and_optimize are compared with the extracted model (flags chosen by probing the tree) on a near-miss stream (left "
             "recursion through every operator, directly and through 2-3 rules of every type; every nullable / non-failing body under every "
-            "repetition, as WHITESPACE / COMMENT, as alternative; name and count errors; implicit-skip recursion) and on random recursive grammars; "
+            "repetition, as WHITESPACE / COMMENT, as alternative; repetitions away from the left edge whose body leads back to the enclosing rule "
+            "through references while that rule can match empty through a later alternative / ? / look-ahead; name and count errors; "
+            "implicit-skip recursion) and on random recursive grammars; when the verdicts differ, the differing grammars are varied (escalated "
+            "search, see coverage.escalated_search) and the accepted variants are run as well; "
             "every accepted grammar without stack built-ins is run by the real pest_vm from every rule on all inputs up to a length bound in a child "
             "process (stack overflow = signal, call limit, CPU budget per parse) and any non-termination is a contract violation, cross-checked "
             "against Layer S.",
@@ -109,6 +112,61 @@ def run_cases(jobs):
         for k, v in s.items():
             stats[k] = stats.get(k, 0) + v if isinstance(v, int) else v
     return mism, stats
+
+
+def escalate(differing, pipe, seed, maxlen):
+    """differing: MISMATCH records of kind `model` (case V|x|sexp).  Returns the statistics of the search plus the `spec` mismatches found."""
+    def signature(m):
+        strip = lambda v: ",".join(sorted(set(k.split(":")[0] for k in v.replace("err:", "").split(","))))
+        return (strip(m["impl"]), strip(m["expected"]))
+    groups = {}
+    for m in differing:
+        groups.setdefault((m["case"].split("|")[1], signature(m)), []).append(m)
+    for ms in groups.values():
+        ms.sort(key=lambda m: (len(m["case"]), m["case"]))
+    picked = []        # round robin over the kinds of difference, smallest grammars first
+    while len(picked) < 48 and any(groups.values()):
+        for key in sorted(groups):
+            if groups[key] and len(picked) < 48:
+                picked.append(groups[key].pop(0))
+    out = {"starting_points": len(picked), "kinds_of_difference": len(groups), "variants_judged": 0, "variants_accepted": 0, "vm_runs": 0,
+           "nonterminating_observed": 0, "wellformed_rejected": 0, "mismatches": [], "classes": {},
+           "inputs": "all strings over {x, y, space} up to length %d plus the strings up to length 3 that use a letter of the grammar's own "
+                     "literals / ranges / character classes" % maxlen}
+    os.makedirs(BUILD, exist_ok=True)
+    jobs = []
+    for feat, x in (("", "0"), ("extras", "1")):
+        gs = [m["case"].split("|", 2)[2] for m in picked if m["case"].split("|")[1] == x]
+        if not gs:
+            continue
+        path = os.path.join(BUILD, "c06_escalate_%s_%d_%s.txt" % (hashlib.sha1(REPO.encode()).hexdigest()[:8], os.getpid(), x))
+        with open(path, "w") as f:
+            f.write("\n".join(gs) + "\n")
+        jobs.append(("escalate%s" % (" [grammar-extras]" if feat else ""), pipe(feat, "escalate %s %d %d" % (shlex.quote(path), min(maxlen, 4), seed)), path))
+    outs = run_pipeline([c for _, c, _ in jobs])
+    for (rc, txt), (label, c, path) in zip(outs, jobs):
+        try:
+            os.remove(path)
+        except OSError:
+            pass
+        m, s, other = parse_runner_output(txt)
+        if rc != 0 or "evaluations" not in s:
+            out.setdefault("failed_jobs", []).append("%s rc=%s %s" % (label, rc, txt[-300:]))
+            continue
+        out["variants_judged"] += s.get("evaluations", 0)
+        out["variants_accepted"] += s.get("accepted", 0)
+        out["vm_runs"] += s.get("vm_runs", 0)
+        out["nonterminating_observed"] += s.get("nonterminating", 0)
+        for k, v in s.items():
+            if str(k).startswith("class/") and isinstance(v, int):
+                out["classes"][k] = out["classes"].get(k, 0) + v
+        out["wellformed_rejected"] += s.get("class/acceptance", 0)
+        for x in m:
+            if x["kind"] == "spec":       # only real violations of the property; further verdict differences are more of the same
+                x["job"] = label
+                out["mismatches"].append(x)
+    out["failing_inputs_found"] = len(out["mismatches"])
+    return out
 
 
 def case_parts(case):
@@ -193,6 +251,24 @@ def run(tier, seed, replay=None):
             jobs.append(("%s%s" % (c, " [grammar-extras]" if feat else ""), pipe(feat, c)))
     mism, stats = run_cases(jobs)
 
+    # Escalated search.  The verdict of the real front end differs from the model of validator.rs: the property itself is about behaviour
+    # (an accepted grammar terminates on every input; a well-formed grammar is accepted), so the differing grammars are taken as starting
+    # points, varied (every single change, the directed product "repetition operator x way back to the enclosing rule x something
+    # consuming in front x enclosing rule nullable through a later alternative / ? / look-ahead", random chains of changes), judged by
+    # the real front end again and every accepted variant is run by the real pest_vm in child processes on inputs over x, y, space and
+    # the letters of its own literals.  A variant that does not terminate (or a well-formed one that is rejected) is the failing input.
+    escalation = None
+    differing = [m for m in mism if m["kind"] == "model" and m["case"].startswith("V|")]
+    already = any(m["kind"] == "spec" and "class=ws" not in m["expected"] for m in mism)     # the regular stream has a failing input already
+    if differing and (not already or os.environ.get("C06_FORCE_ESCALATION")):
+        escalation = escalate(differing, pipe, seed, maxlen)
+        mism += escalation.pop("mismatches")
+        for k, v in escalation.pop("classes").items():
+            stats[k] = stats.get(k, 0) + v
+        log("C06: escalated search from %d differing grammars: %d variants judged, %d accepted and run (%d parses), %d do not terminate, "
+            "%d well-formed ones rejected" % (escalation["starting_points"], escalation["variants_judged"], escalation["variants_accepted"],
+                                              escalation["vm_runs"], escalation["nonterminating_observed"], escalation["wellformed_rejected"]))
+
     known = {f.get("class"): f for f in known_findings("C06") if f.get("status") == "known"}
     by = {}
     for m in mism:
@@ -210,6 +286,9 @@ def run(tier, seed, replay=None):
         worst = min(ms, key=lambda m: (len(m["case"]), m["case"]))
         cp = case_parts(worst["case"])
         desc, coqthm, patch = CLASS.get(cls, CLASS["other"])
+        if cls == "missed-check" and fix_lr == "1":
+            # check_expr is repaired already: the real validator misses a check that the (repaired) model makes - not the known defect
+            desc, coqthm, patch = "accepted although the model of the validator rejects it", "C06_termination_fixed (its hypothesis validate = [] is what the real code gets wrong)", None
         w = worst["impl"].split(" ")
         count = stats.get("class/" + cls, len(ms))
         rep = {"theorem_or_correspondence": "C06 contract on the real code: accepted + no stack built-ins => pest_vm terminates from every rule on every "
@@ -269,7 +348,9 @@ def run(tier, seed, replay=None):
         "rule": "one evaluation = one generated grammar through the real parse_and_optimize (verdict + multiset of error kinds compared with the model); "
                 "non-trivial = distinct grammar with recursion or a repetition / WHITESPACE / COMMENT rule together with a construct that may match "
                 "empty (?, *, predicates, empty literal, {0,..}, {,n}, SOI/EOI, PUSH_LITERAL). vm_runs = (rule, input) parses of accepted stack-free "
-                "grammars by the real pest_vm in child processes, all inputs over {x, y, space} up to length %d" % maxlen,
+                "grammars by the real pest_vm in child processes, all inputs over {x, y, space} up to length %d plus, for a grammar with other letters "
+                "in its literals / ranges / character classes (at most 3, both cases of case-insensitive literals), all strings up to length 3 "
+                "that use such a letter" % maxlen,
         "exhaustive": False,
         "vm_runs": stats.get("vm_runs", 0),
         "accepted": stats.get("accepted", 0),
@@ -280,10 +361,12 @@ def run(tier, seed, replay=None):
         "mismatches": len(mism),
         "implementation_state": {"fix_leftrec": fix_lr, "fix_tag": fix_tag},
         "classes": {k: v for k, v in stats.items() if str(k).startswith("class/")},
+        "escalated_search": escalation if escalation is not None else "not run (no difference between the real verdicts and the model)",
         "samples": ["V|0|(a n (seq (opt (id a)) (str 78)))", "T|0|4|(a n (seq (id b) (str 78)));(b n (opt (id a)))",
                     "V|0|(r n (seq (rep (cho (str -) (str 78))) (str 78)))"] + corpus[:3],
     })
-    res.assumptions = ["inputs of the termination runs: all strings over {x, y, space} up to the length bound - the theorems are for arbitrary byte strings",
+    res.assumptions = ["inputs of the termination runs: all strings over {x, y, space} up to the length bound (plus short strings with up to 3 letters taken "
+                       "from the grammar's own literals) - the theorems are for arbitrary byte strings",
                        "generated grammars use literals over x, y, space, the built-ins ANY / ASCII_* / NEWLINE / SOI / EOI / LETTER and 1-5 rules",
                        "stack-reading built-ins (PEEK, POP, DROP, PEEK_ALL, POP_ALL, PEEK[..]) are outside the property; grammars using them are judged "
                        "(verdict compared) but not run"]
